@@ -56,7 +56,7 @@ func (o *vsOut) emit(spec, trace string, s *vsSched, note string) {
 func vsPreempts(cs []vsChoice) int {
 	n := 0
 	for _, c := range cs {
-		if c.prevEn && c.chosen != c.prev {
+		if c.prevEn && vsBase(c.chosen) != c.prev {
 			n++
 		}
 	}
@@ -81,7 +81,7 @@ func (n vsNode) prefix() []string {
 }
 
 // vsEnum explores the schedules of one scenario with at most `bound` preemptions by re-execution.
-func vsEnum(o *vsOut, spec string, sc vsLifeScn, bound, maxRuns int, rnd *rand.Rand) (runs int, exhausted bool, maxPre int) {
+func vsEnum(o *vsOut, spec string, exec vsExec, bound, maxRuns int, rnd *rand.Rand) (runs int, exhausted bool, maxPre int) {
 	stack := []vsNode{{}}
 	for len(stack) > 0 && runs < maxRuns {
 		// take a random frontier node (seeded): a search truncated by the budget is then spread over the
@@ -92,7 +92,7 @@ func vsEnum(o *vsOut, spec string, sc vsLifeScn, bound, maxRuns int, rnd *rand.R
 		stack = stack[:len(stack)-1]
 		pre := n.prefix()
 		rp := &vsReplay{names: pre, diverged: -1}
-		trace, s := vsLifeExec(sc, rp)
+		trace, s := exec(rp)
 		runs++
 		note := ""
 		if rp.diverged >= 0 {
@@ -113,7 +113,7 @@ func vsEnum(o *vsOut, spec string, sc vsLifeScn, bound, maxRuns int, rnd *rand.R
 					continue
 				}
 				cost := 0
-				if c.prevEn && alt != c.prev {
+				if c.prevEn && vsBase(alt) != c.prev {
 					cost = 1
 				}
 				if n.preempts+cost > bound {
@@ -124,6 +124,33 @@ func vsEnum(o *vsOut, spec string, sc vsLifeScn, bound, maxRuns int, rnd *rand.R
 		}
 	}
 	return runs, len(stack) == 0, maxPre
+}
+
+// vsExec runs one scenario under one chooser and returns the trace (text) and the scheduler.
+type vsExec func(ch vsChooser) (string, *vsSched)
+
+// vsParseAny: the scenario kind is chosen by the spec's prefix: `kind=read,…` (C07, sched_read.go), `kind=flush,…`
+// (C08, sched_flush.go), anything else is a connection-lifecycle scenario (sched_life.go).
+func vsParseAny(spec string) (vsExec, error) {
+	switch {
+	case strings.HasPrefix(spec, "kind=read"):
+		sc, err := vsParseRdScn(spec)
+		if err != nil {
+			return nil, err
+		}
+		return func(ch vsChooser) (string, *vsSched) { return vsReadExec(sc, ch) }, nil
+	case strings.HasPrefix(spec, "kind=flush"):
+		sc, err := vsParseFlScn(spec)
+		if err != nil {
+			return nil, err
+		}
+		return func(ch vsChooser) (string, *vsSched) { return vsFlushExec(sc, ch) }, nil
+	}
+	sc, err := vsParseScn(spec)
+	if err != nil {
+		return nil, err
+	}
+	return func(ch vsChooser) (string, *vsSched) { return vsLifeExec(sc, ch) }, nil
 }
 
 // VerifSchedMain is the entry point used by go/cmd/sched.
@@ -185,7 +212,7 @@ func VerifSchedMain(args []string) int {
 			case strings.HasPrefix(l, "scn "):
 				cur = strings.TrimSpace(l[4:])
 			case strings.HasPrefix(l, "sched"):
-				sc, err := vsParseScn(cur)
+				exec, err := vsParseAny(cur)
 				if err != nil {
 					fmt.Fprintln(os.Stderr, err)
 					return 2
@@ -195,7 +222,7 @@ func VerifSchedMain(args []string) int {
 					names = strings.Split(rest, ",")
 				}
 				rp := &vsReplay{names: names, diverged: -1}
-				trace, s := vsLifeExec(sc, rp)
+				trace, s := exec(rp)
 				note := ""
 				if rp.diverged >= 0 {
 					note = fmt.Sprintf(" DIVERGED@%d", rp.diverged)
@@ -205,25 +232,25 @@ func VerifSchedMain(args []string) int {
 		}
 	case "enum":
 		for i, spec := range specs {
-			sc, err := vsParseScn(spec)
+			exec, err := vsParseAny(spec)
 			if err != nil {
 				fmt.Fprintln(os.Stderr, err)
 				return 2
 			}
 			rnd := rand.New(rand.NewSource(*seed*7919 + int64(i)))
-			n, ex, mp := vsEnum(o, spec, sc, *bound, *maxRuns, rnd)
+			n, ex, mp := vsEnum(o, spec, exec, *bound, *maxRuns, rnd)
 			fmt.Fprintf(w, "info enum scn %s runs=%d exhausted=%v bound=%d maxpreempt=%d\n", spec, n, ex, *bound, mp)
 		}
 	case "random":
 		for i, spec := range specs {
-			sc, err := vsParseScn(spec)
+			exec, err := vsParseAny(spec)
 			if err != nil {
 				fmt.Fprintln(os.Stderr, err)
 				return 2
 			}
 			rnd := rand.New(rand.NewSource(*seed*104729 + int64(i)))
 			for k := 0; k < *runs; k++ {
-				trace, s := vsLifeExec(sc, &vsRandom{rnd: rnd, stay: *stay})
+				trace, s := exec(&vsRandom{rnd: rnd, stay: *stay})
 				o.emit(spec, trace, s, "")
 			}
 		}
